@@ -10,6 +10,10 @@ except ImportError:  # pragma: no cover
     import tomli as tomllib
 
 
+def _norm(t):
+    return "".join(t.split())
+
+
 def run_unit(u, repo, outdir, prop, tier):
     t0 = time.time()
     spec = tomllib.load(open(os.path.join(VERIF, "contracts", "scan", u["spec"] + ".toml"), "rb"))
@@ -32,6 +36,8 @@ def run_unit(u, repo, outdir, prop, tier):
     used = set()
     ignored = 0
     ignore_arg = spec.get("ignore_arg", False)
+    # by_text: a listed site is identified by the whole text of the call (method sites carry no separate `arg`)
+    by_text = spec.get("by_text", False)
     counts = {}
     for s in sites:
         skip = False
@@ -53,11 +59,13 @@ def run_unit(u, repo, outdir, prop, tier):
         for i, l in enumerate(listed):
             if l["file"] == s["file"] and l["enclosing_fn"] == s["enclosing_fn"] and l["what"] == s["what"] \
                     and ("kind" not in l or l["kind"] == s["kind"]) \
-                    and (ignore_arg or l.get("arg", s["arg"]) == s["arg"]):
+                    and (ignore_arg or l.get("arg", s["arg"]) == s["arg"]) \
+                    and (not by_text or _norm(l.get("text", "")) == _norm(s.get("text", ""))):
                 key = i
                 break
         kindtag = (s["kind"] + ":") if any("kind" in l for l in listed) else ""
-        oid = "%s/S/%s@%s::%s::%s%s(%s)" % (prop, spec["name"], s["file"], s["enclosing_fn"], kindtag, s["what"], "" if ignore_arg else slug(s["arg"], 40))
+        oid = "%s/S/%s@%s::%s::%s%s(%s)" % (prop, spec["name"], s["file"], s["enclosing_fn"], kindtag, s["what"],
+                                            slug(_norm(s.get("text", "")), 70) if by_text else ("" if ignore_arg else slug(s["arg"], 40)))
         if key is None:
             oid += "#L%d" % s["line"] if ignore_arg else ""
             o = Obligation(oid, "scan", FAILED,
@@ -81,12 +89,21 @@ def run_unit(u, repo, outdir, prop, tier):
     for i, l in enumerate(listed):
         if "count" in l and i in counts and counts[i] != l["count"]:
             kindtag = (l.get("kind", "") + ":") if "kind" in l else ""
-            oid = "%s/S/%s@%s::%s::%s%s()#count" % (prop, spec["name"], l["file"], l["enclosing_fn"], kindtag, l["what"])
+            oid = "%s/S/%s@%s::%s::%s%s(%s)#count" % (prop, spec["name"], l["file"], l["enclosing_fn"], kindtag, l["what"], slug(_norm(l.get("text", "")), 70) if by_text else "")
             obls.append(Obligation(oid, "scan", FAILED,
                                    detail="%s::%s has %d `%s` inspection sites, %d are listed: a site was added or removed" % (l["file"], l["enclosing_fn"], counts[i], l["what"], l["count"]),
                                    fn="%s :: %s" % (l["file"], l["enclosing_fn"])))
     if not sites:
         raise Undecided("scan %s found no site at all (pattern lost?)" % spec["name"])
+    # (opt-in) every listed site has to be there: a listed check that disappeared is a failed obligation
+    if spec.get("require_present", False):
+        for i, l in enumerate(listed):
+            if i not in used:
+                kindtag = (l.get("kind", "") + ":") if "kind" in l else ""
+                oid = "%s/S/%s@%s::%s::%s%s(%s)#absent" % (prop, spec["name"], l["file"], l["enclosing_fn"], kindtag, l["what"], slug(_norm(l.get("text", "")), 70) if by_text else "")
+                obls.append(Obligation(oid, "scan", FAILED,
+                                       detail="the listed `%s` site of %s::%s is gone: %s" % (l["what"], l["file"], l["enclosing_fn"], l.get("text", "")),
+                                       fn="%s :: %s" % (l["file"], l["enclosing_fn"])))
     # several occurrences inside one listed function share one obligation id
     seen = {}
     for o in obls:
